@@ -330,3 +330,74 @@ Fixpoint mrun (m : mem) (ops : list mop) : mem * list out :=
   | [] => (m, [])
   | o :: ops' => let '(m1, x) := mstep m o in let '(m2, xs) := mrun m1 ops' in (m2, x :: xs)
   end.
+
+(** ---- concurrent first use of one name ----
+    Threads all call Key([name], pw_i); a schedule is a list of thread ids, each occurrence
+    lets that thread perform its next atomic action.
+
+    [conc_run_atomic]: Key as coded — lookup, create and insert inside ONE critical section
+    (mem: s.mu.Lock()/defer Unlock around the whole body; file, after fix-serialise-key-creation:
+    the package mutex), i.e. one atomic action per caller.
+
+    [conc_run_split]: the check-then-insert variant — lookup in one critical section, key
+    generation outside, insert in a second critical section WITHOUT re-checking. *)
+Record cthread := { t_pw : bytes; t_newkey : bytes; t_out : option out }.
+
+Fixpoint upd {A} (i : nat) (f : A -> A) (l : list A) : list A :=
+  match l, i with
+  | [], _ => []
+  | x :: l', O => f x :: l'
+  | x :: l', S i' => x :: upd i' f l'
+  end.
+
+Definition set_out (o : out) (t : cthread) : cthread := {| t_pw := t_pw t; t_newkey := t_newkey t; t_out := Some o |}.
+
+Definition conc_step_atomic (name : bytes) (st : mem * list cthread) (tid : nat) : mem * list cthread :=
+  match nth_error (snd st) tid with
+  | Some t =>
+      match t_out t with
+      | None => let '(m', o) := mstep (fst st) (MKey name (t_pw t) (t_newkey t)) in (m', upd tid (set_out o) (snd st))
+      | Some _ => st
+      end
+  | None => st
+  end.
+Definition conc_run_atomic (name : bytes) (st : mem * list cthread) (sched : list nat) : mem * list cthread :=
+  fold_left (conc_step_atomic name) sched st.
+
+(** what a complete first-use round must look like: exactly one caller created the key; every
+    caller with that caller's password got that key, every other caller was rejected *)
+Definition is_created (t : cthread) : bool := match t_out t with Some (OutKey _ true) => true | _ => false end.
+Definition agrees (k pw0 : bytes) (t : cthread) : bool :=
+  match t_out t with
+  | None => false
+  | Some o =>
+      if bytes_eqb (t_pw t) pw0
+      then match o with OutKey k' _ => bytes_eqb k' k | _ => false end
+      else match o with OutErr EInvalidPassword => true | _ => false end
+  end.
+Definition first_use_ok (m : mem) (name : bytes) (ths : list cthread) : bool :=
+  match mlookup m name with
+  | Some (k, pw0) => Nat.eqb (length (filter is_created ths)) 1 && forallb (agrees k pw0) ths
+  | None => false
+  end.
+
+(** the split variant *)
+Inductive spc := SStart | SLooked (r : option (bytes * bytes)) | SDone (o : out).
+Record sthread := { s_pw : bytes; s_newkey : bytes; s_pc : spc }.
+Definition set_pc (p : spc) (t : sthread) : sthread := {| s_pw := s_pw t; s_newkey := s_newkey t; s_pc := p |}.
+
+Definition conc_step_split (name : bytes) (st : mem * list sthread) (tid : nat) : mem * list sthread :=
+  match nth_error (snd st) tid with
+  | Some t =>
+      match s_pc t with
+      | SStart => (fst st, upd tid (set_pc (SLooked (mlookup (fst st) name))) (snd st))            (* RLock; lookup; RUnlock *)
+      | SLooked None =>                                                                            (* generate; Lock; insert; Unlock *)
+          ((name, (s_newkey t, s_pw t)) :: fst st, upd tid (set_pc (SDone (OutKey (s_newkey t) true))) (snd st))
+      | SLooked (Some (k, pw0)) =>
+          (fst st, upd tid (set_pc (SDone (if bytes_eqb pw0 (s_pw t) then OutKey k false else OutErr EInvalidPassword))) (snd st))
+      | SDone _ => st
+      end
+  | None => st
+  end.
+Definition conc_run_split (name : bytes) (st : mem * list sthread) (sched : list nat) : mem * list sthread :=
+  fold_left (conc_step_split name) sched st.
